@@ -42,6 +42,20 @@ def main():
         if replay:
             os.environ["VERIF_REPLAY"] = replay
         return fn(tier)
+    except C.CodeCrashed as e:
+        # a crash / hang of the code under test on an identified case is a verdict
+        import hashlib
+        import json
+        d = os.path.join(C.REPLAYS, what)
+        os.makedirs(d, exist_ok=True)
+        h = hashlib.sha256(json.dumps(e.case, sort_keys=True, default=str).encode()).hexdigest()[:16]
+        path = os.path.join(d, "crash-" + h + ".json")
+        json.dump({"property": what, "what": e.reason, "case": e.case,
+                   "rerun": "%s run <file holding the case on one line>" % C.HARNESS_BIN}, open(path, "w"), indent=1, default=str)
+        print("VIOLATION property=%s replay=%s" % (what, path))
+        print("   %s" % e.reason, file=sys.stderr)
+        C.write_crash_evidence(what, tier, e, path)
+        return 1
     except C.ToolError as e:
         print("TOOL-ERROR: %s" % e, file=sys.stderr)
         return 2
